@@ -109,7 +109,7 @@ func (fv *FuncVC) eval(e ast.Expr, st *State) Val {
 		fv.addFact(st, ok)
 		return v
 	case *ast.FuncLit:
-		if !fv.inlinedClosure(x) {
+		if !fv.inlinedClosure(x) && !fv.contractedClosure(x) {
 			fv.note("function literal outside a supported higher-order call")
 		}
 		return fv.havocVal(st, "closure", fv.typeOf(e))
@@ -910,4 +910,75 @@ func (fv *FuncVC) inlinedClosure(fl *ast.FuncLit) bool {
 		return true
 	})
 	return uses == calls
+}
+
+// contractedClosure: the literal is the single value ever assigned to a local variable, that variable is only
+// called (never passed on or stored), and the literal has its own contract <Func>$lit<k>: every call is then
+// checked against that contract (callClosureContract) and the literal's body against it too (genLit), so the
+// function value itself carries no information.
+func (fv *FuncVC) contractedClosure(fl *ast.FuncLit) bool {
+	var obj types.Object
+	ast.Inspect(fv.fi.Decl.Body, func(m ast.Node) bool {
+		if as, ok := m.(*ast.AssignStmt); ok {
+			for i, r := range as.Rhs {
+				if r == ast.Expr(fl) && i < len(as.Lhs) {
+					if id, ok := as.Lhs[i].(*ast.Ident); ok {
+						obj = fv.info.ObjectOf(id)
+					}
+				}
+			}
+		}
+		return true
+	})
+	if obj == nil || fv.localClosure(obj) != fl {
+		return false
+	}
+	if fc, _ := fv.closureContract(fl); fc == nil {
+		return false
+	}
+	uses, calls, assigns := 0, 0, 0
+	ast.Inspect(fv.fi.Decl.Body, func(m ast.Node) bool {
+		switch m := m.(type) {
+		case *ast.Ident:
+			if fv.info.Uses[m] == obj {
+				uses++
+			}
+		case *ast.AssignStmt:
+			for _, l := range m.Lhs {
+				if id, ok := l.(*ast.Ident); ok && fv.info.Uses[id] == obj {
+					assigns++
+				}
+			}
+		case *ast.CallExpr:
+			if id, ok := ast.Unparen(m.Fun).(*ast.Ident); ok && fv.info.Uses[id] == obj {
+				calls++
+			}
+		}
+		return true
+	})
+	return uses == calls+assigns
+}
+
+// closureContract looks up the contract <Func>$lit<k> of a function literal of the verified function.
+func (fv *FuncVC) closureContract(fl *ast.FuncLit) (*FuncContract, string) {
+	k, n := 0, 0
+	ast.Inspect(fv.fi.Decl.Body, func(m ast.Node) bool {
+		if l, ok := m.(*ast.FuncLit); ok {
+			n++
+			if l == fl {
+				k = n
+			}
+		}
+		return true
+	})
+	base := fv.fi.Key
+	if i := strings.Index(base, "$lit"); i >= 0 {
+		base = base[:i]
+	}
+	cf := fv.w.Contracts[fv.fi.Pkg.PkgPath]
+	if k == 0 || cf == nil {
+		return nil, ""
+	}
+	key := fmt.Sprintf("%s$lit%d", base, k)
+	return cf.Funcs[key], key
 }
